@@ -162,7 +162,10 @@ pub fn run(seed: u64, count: usize, outdir: &str) -> std::io::Result<i32> {
                 }
                 let after = c.view();
                 let (ctr, sc, yaw, pitch) = after.components();
-                if !(sc.is_finite() && ctr.x.is_finite() && ctr.y.is_finite() && ctr.z.is_finite()) { blown = true; }
+                // (once yaw or pitch has been non-zero the centre is not compared, and the model's own centre rounds differently: only the
+                //  scale decides whether the view has left the finite range from then on)
+                let rotated_by_now = tainted || cb(yaw) != 0 || cb(pitch) != 0;
+                if !sc.is_finite() || (!rotated_by_now && !(ctr.x.is_finite() && ctr.y.is_finite() && ctr.z.is_finite())) { blown = true; }
                 if blown { write!(il, "! ; ").unwrap(); }
                 else if tainted || ((k <= 1 || k >= 8) && (cb(yaw) != 0 || cb(pitch) != 0)) { write!(il, "? ~ ~ ~ {} {} {} ; ", cb(sc), cb(yaw), cb(pitch)).unwrap(); }
                 else { write!(il, "{} {} {} {} {} {} {} ; ", match flag { None => "-", Some(true) => "1", Some(false) => "0" }, cb(ctr.x), cb(ctr.y), cb(ctr.z), cb(sc), cb(yaw), cb(pitch)).unwrap(); }
